@@ -14,16 +14,20 @@ def bfs(make_world, max_depth, stats, sig_of=None, max_states=None, sample_every
     A state is represented by the event history reaching it and is rebuilt by replay (live objects rarely copy).
     Returns (closed, n_states, max_depth_reached).  closed == True iff the frontier emptied below max_depth."""
     w0 = make_world()
+    snap = hasattr(w0, 'snapshot')   # worlds whose full state can be captured/restored avoid the replay
     seen = {w0.canon()}
-    frontier = deque([()])
+    frontier = deque([((), w0.snapshot() if snap else None)])
     closed = True
     depth_reached = 0
     stats.count('states')
     while frontier:
-        hist = frontier.popleft()
+        hist, sn = frontier.popleft()
         w = make_world()
-        for e in hist:
-            w.apply(e)
+        if snap:
+            w.restore(sn)
+        else:
+            for e in hist:
+                w.apply(e)
         evs = w.enabled()
         if len(hist) >= max_depth:
             if evs:
@@ -31,8 +35,11 @@ def bfs(make_world, max_depth, stats, sig_of=None, max_states=None, sample_every
             continue
         for ev in evs:
             w = make_world()
-            for e in hist:
-                w.apply(e)
+            if snap:
+                w.restore(sn)
+            else:
+                for e in hist:
+                    w.apply(e)
             fails = w.apply(ev)
             stats.count('transitions')
             stats.count('traces_validated')
@@ -46,7 +53,7 @@ def bfs(make_world, max_depth, stats, sig_of=None, max_states=None, sample_every
                 seen.add(k)
                 stats.count('states')
                 depth_reached = max(depth_reached, len(hist) + 1)
-                frontier.append(hist + (ev,))
+                frontier.append((hist + (ev,), w.snapshot() if snap else None))
                 if sample_every and len(seen) % sample_every == 0:
                     stats.sample({'history': list(hist) + [ev]}, cap=4)
                 if max_states and len(seen) >= max_states:
